@@ -121,6 +121,34 @@ func init() {
 					out, got := read(path, hex.EncodeToString(make([]byte, badLen)))
 					judge("badkeylen", badLen, false, true, true, false, out, got)
 				}
+				// saving over whatever the path held before (longer, shorter, another sealed wallet, a PEM
+				// export): the saved wallet must read back whatever the history of the file
+				for oi, old := range [][]byte{make([]byte, 4*len(file)+37), make([]byte, len(file)+1), file[:len(file)/2], {}, append(append([]byte{}, file...), file...)} {
+					op := filepath.Join(dir, fmt.Sprintf("o%d", oi))
+					rand.Read(old)
+					os.WriteFile(op, old, 0o644)
+					wl2, _ := wallet.New()
+					ho := fileoperations.New(fileoperations.Config{WalletPath: op, WalletPasswd: keyHex, WalletPemPath: op}, aeswrapper.New())
+					if err := ho.SaveWallet(&wl2); err != nil {
+						return err
+					}
+					keep := wl
+					wl = wl2
+					out, got := read(op, keyHex)
+					judge("overwrite", len(old), true, true, true, true, out, got)
+					wl = keep
+					// and the PEM writer over the sealed file just written
+					os.WriteFile(op, old, 0o644)
+					os.WriteFile(op+".pub", old, 0o644)
+					if err := ho.SaveToPem(&wl2); err == nil {
+						pw, err := ho.ReadFromPem()
+						c.Rep.Evals++
+						c.Count("pem.overwrite")
+						if err != nil || !bytes.Equal(pw.Private, wl2.Private) || !bytes.Equal(pw.Public, wl2.Public) {
+							c.Violate("C20", "pem-overwrite-differs", fmt.Sprintf("PEM saved over a %d-byte file does not read back: err=%v", len(old), err), nil)
+						}
+					}
+				}
 				// PEM round trip
 				if err := h.SaveToPem(&wl); err != nil {
 					return err
